@@ -356,7 +356,31 @@ def _replay(h, scratch, target_dir, prop):
 # one harness
 # --------------------------------------------------------------------------
 
+MEM_BUDGET_GB = float(os.environ.get("VERIF_MEM_GB", "52"))
+_mem_cv = threading.Condition()
+_mem_used = [0.0]
+
+
+def _mem_claim(h):
+    # expected peak of the harness (its ulimit is an upper bound, usually far above the peak)
+    return float(h.get("mem_est", min(h.get("mem_gb", 12), 10)))
+
+
 def run_harness(h, scratch, base_target, prop, known, keep):
+    need = min(_mem_claim(h), MEM_BUDGET_GB)
+    with _mem_cv:
+        while _mem_used[0] + need > MEM_BUDGET_GB:
+            _mem_cv.wait()
+        _mem_used[0] += need
+    try:
+        return _run_harness(h, scratch, base_target, prop, known, keep)
+    finally:
+        with _mem_cv:
+            _mem_used[0] -= need
+            _mem_cv.notify_all()
+
+
+def _run_harness(h, scratch, base_target, prop, known, keep):
     srcdir = os.path.join(scratch, "src")
     tdir = os.path.join(scratch, "t_" + h["name"])
     if os.path.exists(base_target):
